@@ -40,7 +40,7 @@ def run(ctx):
                     and 0 < a["lifetime_s"] <= 30):
                 ctx.violation("c13-bad-client-assertion", "client assertion not addressed to the issuer / wrong subject / lifetime above ~30 s", dict(case, assertion=a))
             if a["jti"] in seen_jti:
-                ctx.violation("c13-assertion-jti-reused", "client assertion jti reused", dict(case, assertion=a))
+                ctx.violation("c13-assertion-jti-reused", "client assertion jti reused: the same signed assertion was sent in two HTTP requests", dict(case, assertion=a))
             seen_jti.add(a["jti"])
         # nothing the browser receives contains a client credential
         for b in o.get("browser_visible", []):
@@ -140,8 +140,6 @@ def run(ctx):
                 "distinct_nontrivial = distinct (request, configuration) pairs")
     ctx.assumptions += ["crypto/rand yields unpredictable bytes (the theorem shows the values are fresh draws used nowhere else; entropy is assumed)",
                         "S256 is modelled as an injective symbol", "provider = the harness's fake provider",
-                        "'a signed assertion that is unique per request': the retried POSTs of ONE pushed-authorization exchange re-send one byte-identical body, "
-                        "assertion included (ClientAuthenticationParams is computed once, outside retry.DoValue); the monitor counts such an exchange as one request "
-                        "and requires the jti to be unique across exchanges / token requests",
+                        "'a signed assertion that is unique per request' is read per HTTP request: every POST to the PAR / token endpoint, retries included, must carry a new jti",
                         "the generator counter after a failed login is not observable; model and implementation are compared on status, browser parameters, "
                         "back-channel posts and cookie there"]
